@@ -27,6 +27,7 @@ where
 
     let mut line = Vec::new();
     let mut headers = HeaderMap::new();
+    let mut header_lines = 0;
 
     // status line
     let status: StatusCode = {
@@ -47,9 +48,10 @@ where
         buffers::read_line_strict(reader, &mut line, MAX_LINE_LEN)?;
         if line.is_empty() {
             break;
-        } else if headers.len() == max_headers {
+        } else if header_lines == max_headers {
             return Err(InvalidResponseKind::Header.into());
         }
+        header_lines += 1;
 
         let col = line
             .iter()
